@@ -3,8 +3,9 @@
 //! (`TaffyTree::compute_layout_with_measure`, rounding disabled) in exact-key mode (hook `set_exact_key`), every node's
 //! unrounded layout printed as bit patterns.
 //!
-//! `vh blocktree cases <seed> <n> [start]`   per case: `C` = available space + the tree (pre-order; per node 54 style ints as
-//!                                 `vh c10` encodes them, 3 ints of measure data, child count), `R` = 21 ints per node in pre-order
+//! `vh blocktree cases <seed> <n> [start]`   per case: `C` = number of passes (1 or 2), the available space of each + the tree
+//!                                 (pre-order; per node 54 style ints as `vh c10` encodes them, 3 ints of measure data, child
+//!                                 count), `R` = after EVERY pass, 21 ints per node in pre-order
 //!                                 (order, location, size, content_size, scrollbar_size, border, padding, margin),
 //!                                 `L <d>` = number of Layout fields that differ when the same tree is laid out with the REAL cache
 //!                                 key (the recorded lossy-cache-key finding; 0 = identical).  Last line: `SUMMARY ...`.
@@ -22,7 +23,7 @@ use crate::rng::Rng;
 use crate::treegen::{self, Ctx, GenCfg, NodeSpec};
 use taffy::prelude::*;
 
-pub fn bcase(seed: u64, idx: u64) -> (NodeSpec, Size<AvailableSpace>) {
+pub fn bcase(seed: u64, idx: u64) -> (NodeSpec, Vec<Size<AvailableSpace>>) {
     let mut rng = Rng::new(seed.wrapping_mul(0x2545_F491).wrapping_add(idx).wrapping_add(0x0B10_C000));
     let mut cfg = GenCfg::default();
     cfg.displays = vec![Display::Block, Display::Block, Display::Block, Display::Flex, Display::Grid];
@@ -72,8 +73,14 @@ pub fn bcase(seed: u64, idx: u64) -> (NodeSpec, Size<AvailableSpace>) {
     if rng.chance(1, 40) {
         t.style.position = Position::Absolute;
     }
+    // one pass, or two passes over the same tree (the second under the same or another available space: cache hits across passes)
     let a = treegen::avail(&mut rng, &cfg);
-    (t, a)
+    let mut passes = vec![a];
+    if idx % 2 == 1 {
+        let b = treegen::avail(&mut rng, &cfg);
+        passes.push(if rng.chance(1, 4) { a } else if rng.chance(1, 3) { Size { width: a.width, height: b.height } } else { b });
+    }
+    (t, passes)
 }
 
 fn enc_avail(a: AvailableSpace, out: &mut Vec<u64>) {
@@ -98,32 +105,36 @@ fn enc_node(n: &NodeSpec, out: &mut Vec<u64>) {
     }
 }
 
-/// all layouts in pre-order, 21 ints per node
-fn lay_out(spec: &NodeSpec, avail: Size<AvailableSpace>, exact: bool) -> Vec<u64> {
+/// all layouts in pre-order after every pass, 21 ints per node
+fn lay_out(spec: &NodeSpec, passes: &[Size<AvailableSpace>], exact: bool) -> Vec<u64> {
     taffy::verif_hooks::set_exact_key(exact);
     let mut t: TaffyTree<Ctx> = TaffyTree::new();
     t.disable_rounding();
     let mut ids = vec![];
     let root = treegen::build(&mut t, spec, &mut ids);
-    treegen::compute(&mut t, root, avail);
-    taffy::verif_hooks::set_exact_key(false);
     let mut r = vec![];
-    for id in &ids {
-        let l = t.unrounded_layout(*id);
-        let b = treegen::layout_bits(l);
-        r.push(b[0] as u64);
-        r.extend(b[1..].iter().map(|x| canon(f32::from_bits(*x))));
+    for avail in passes {
+        treegen::compute(&mut t, root, *avail);
+        for id in &ids {
+            let l = t.unrounded_layout(*id);
+            let b = treegen::layout_bits(l);
+            r.push(b[0] as u64);
+            r.extend(b[1..].iter().map(|x| canon(f32::from_bits(*x))));
+        }
     }
+    taffy::verif_hooks::set_exact_key(false);
     r
 }
 
-pub fn lines(spec: &NodeSpec, avail: Size<AvailableSpace>) -> (String, String, usize) {
-    let mut c: Vec<u64> = vec![];
-    enc_avail(avail.width, &mut c);
-    enc_avail(avail.height, &mut c);
+pub fn lines(spec: &NodeSpec, passes: &[Size<AvailableSpace>]) -> (String, String, usize) {
+    let mut c: Vec<u64> = vec![passes.len() as u64];
+    for avail in passes {
+        enc_avail(avail.width, &mut c);
+        enc_avail(avail.height, &mut c);
+    }
     enc_node(spec, &mut c);
-    let exact = lay_out(spec, avail, true);
-    let real = lay_out(spec, avail, false);
+    let exact = lay_out(spec, passes, true);
+    let real = lay_out(spec, passes, false);
     let differ = exact.iter().zip(real.iter()).filter(|(a, b)| a != b).count();
     let j = |v: &Vec<u64>| v.iter().map(|x| x.to_string()).collect::<Vec<_>>().join(" ");
     (format!("C {}", j(&c)), format!("R {}", j(&exact)), differ)
@@ -158,8 +169,8 @@ pub fn main(args: &[String]) {
             let mut lossy = 0;
             let mut f = [0u64; 12];
             for idx in start..start + n {
-                let (spec, avail) = bcase(seed, idx);
-                let (c, r, d) = lines(&spec, avail);
+                let (spec, passes) = bcase(seed, idx);
+                let (c, r, d) = lines(&spec, &passes);
                 println!("{c}\n{r}\nL {d}");
                 if d > 0 {
                     lossy += 1;
@@ -173,18 +184,22 @@ pub fn main(args: &[String]) {
         }
         "case" => {
             let (seed, idx) = (num(1, 1), num(2, 0));
-            let (spec, avail) = bcase(seed, idx);
+            let (spec, passes) = bcase(seed, idx);
             let mut s = String::new();
             let mut k = 0;
             describe_tree(&spec, 0, &mut k, &mut s);
-            eprintln!("avail {}\n{}", treegen::avail_str(avail), s);
-            let (c, r, d) = lines(&spec, avail);
+            for a in &passes {
+                eprintln!("avail {}", treegen::avail_str(*a));
+            }
+            eprintln!("{}", s);
+            let (c, r, d) = lines(&spec, &passes);
             println!("{c}\n{r}\nL {d}");
             let vals: Vec<u64> = r.split(' ').skip(1).map(|x| x.parse().unwrap()).collect();
+            let k = spec.count();
             for (i, ch) in vals.chunks(21).enumerate() {
                 let fl: Vec<f32> = ch[1..].iter().map(|b| f32::from_bits(*b as u32)).collect();
-                eprintln!("node {i}: order {} loc ({}, {}) size {}x{} content {}x{} sb {}x{} border {:?} padding {:?} margin {:?}",
-                    ch[0], fl[0], fl[1], fl[2], fl[3], fl[4], fl[5], fl[6], fl[7], &fl[8..12], &fl[12..16], &fl[16..20]);
+                eprintln!("pass {} node {}: order {} loc ({}, {}) size {}x{} content {}x{} sb {}x{} border {:?} padding {:?} margin {:?}",
+                    i / k, i % k, ch[0], fl[0], fl[1], fl[2], fl[3], fl[4], fl[5], fl[6], fl[7], &fl[8..12], &fl[12..16], &fl[16..20]);
             }
         }
         _ => {
